@@ -247,7 +247,8 @@ pub fn ladder_source(kind: &str, n: usize) -> String {
     let wrap = |body: String| format!("pragma circom 2.1.0;\ntemplate M(n) {{\n    signal input in;\n    signal output out;\n    var x = 1;\n{body}\n}}\n");
     match kind {
         "parentheses" => wrap(format!("    x = {}1{};", "(".repeat(n), ")".repeat(n))),
-        "unary-chain" => wrap(format!("    x = {}1;", "-".repeat(n).replace("--", "- -"))),
+        // (prefix operators do not chain without parentheses in the grammar)
+        "unary-chain" => wrap(format!("    x = {}1{};", "-(".repeat(n), ")".repeat(n))),
         "operator-chain" => wrap(format!("    x = 1{};", " + 1".repeat(n))),
         "nested-blocks" => wrap(format!("    {}x = 2;{}", "{ ".repeat(n), " }".repeat(n))),
         "nested-ifs" => wrap(format!("    {}x = 2;{}", "if (n > 1) { ".repeat(n), " }".repeat(n))),
@@ -280,14 +281,17 @@ pub fn check_ladder(kind: &str, n: usize, dir: &Path, case: &Value) -> Vec<Viola
         return out;
     }
     std::fs::write(dir.join("l.circom"), &src).expect("write");
-    let run = run_bin(&BinOpts {
+    // Deep nesting at the quick tier's extra size runs with a 128 KiB main-thread stack: all
+    // recursive work belongs on the tool's own large-stack thread.
+    let small_stack = if n == 6000 { Some(128) } else { None };
+    let run = crate::sut::bin::run_bin_stack(&BinOpts {
         args: vec!["l.circom".into(), "--level".into(), "info".into()],
         cwd: dir,
         hash_seed: Some(1),
         timeout: Duration::from_secs(45),
         sarif_file: None,
         mem_limit: Some(4 << 30),
-    });
+    }, small_stack);
     let ok = !run.timed_out && run.killed_by_signal.is_none() && !run.panicked() && matches!(run.exit, Some(0) | Some(1)) && run.summary.is_some();
     if !ok {
         // Time-outs and kills under the memory limit are one class: which of the two limits is
@@ -602,6 +606,13 @@ pub fn run(run: &Run) {
     for extra in ["pragma circom 2.1.4.0;", "pragma circom 2.1.4\n", "pragma circom;", "pragma circom 2 . 1 . 4;", "pragma custom_templates;", "pragma custom_templates;\npragma circom 2.1.4;", "pragma circom 2.1.4;\npragma custom_templates;", "pragma circom 2.1.4;\npragma circom 2.0.0;", "pragma nosuch;", "pragma circom 2.1.4;\npragma custom_templates;\npragma custom_templates;", "pragma circom 0x2.1.4;", "pragma circom -2.1.4;"] {
         headers.push(extra.to_string());
     }
+    // Definition headers: parameter lists with repeated names, no names, many names.
+    for params in ["", "a", "a, a", "a, b, a", "a, b, c, d, e, f, g, h, i, j, k, l", "n, n, n", "in", "out, out"] {
+        for kw in ["template T2", "template parallel T2", "function f2"] {
+            let body = if kw.starts_with("function") { "return 1;" } else { "signal output o; o <== 1;" };
+            headers.push(format!("pragma circom 2.1.0;\n{kw}({params}) {{ {body} }}"));
+        }
+    }
     run.set_extra("header_forms", json!(headers.len()));
     par_each(&headers, |_, h| {
         let src = format!("{h}\ntemplate T() {{\n    signal input in;\n    signal output out;\n    out <== in;\n}}\n");
@@ -651,6 +662,12 @@ pub fn run(run: &Run) {
         for n in sizes {
             ladder.push((k, *n));
         }
+    }
+    if run.tier == Tier::Quick {
+        // Deep expression nesting is cheap for the tool (about a second at 6000 levels) and is
+        // where a smaller stack shows: two constructs at that depth in the quick tier as well.
+        ladder.push(("parentheses", 6000));
+        ladder.push(("unary-chain", 6000));
     }
     par_each(&ladder, |i, (kind, n)| {
         let case = json!({"kind": "ladder", "construct": kind, "size": n});
